@@ -4,6 +4,7 @@ import (
 	"encoding/binary"
 	"encoding/json"
 	"fmt"
+	"os"
 	"sort"
 
 	"github.com/ipld/go-storethehash/store/types"
@@ -234,9 +235,19 @@ func runGCProg(p *Plan, tape *simrt.Tape, opt RunOpt) *RunOut {
 			var left []uint64
 			files := fsOf().Files()
 			for f := range target {
-				if data, ok := files[fmt.Sprintf("%s.%d", dataPath, f)]; ok && len(data) != 0 {
-					left = append(left, f)
+				data, ok := files[fmt.Sprintf("%s.%d", dataPath, f)]
+				if !ok || len(data) == 0 {
+					continue
 				}
+				if mode == 1 {
+					// a low-use target is also done once it is no longer low-use:
+					// truncating its dead tail can leave a file that is all live
+					// (nothing left to reclaim), and the premise of the clause is gone
+					if l, fr, _, ok := primaryFileStats(data); ok && l > 0 && 100*fr < int64(thr)*(l+fr) {
+						continue
+					}
+				}
+				left = append(left, f)
 			}
 			sort.Slice(left, func(i, j int) bool { return left[i] < left[j] })
 			return left
@@ -290,6 +301,13 @@ func runGCProg(p *Plan, tape *simrt.Tape, opt RunOpt) *RunOut {
 				d.Probes["other-oracle-failed"]++
 				return
 			}
+			if os.Getenv("VERIF_DEBUG_DUMP") != "" {
+				for f := range target {
+					data := fsOf().Files()[fmt.Sprintf("%s.%d", dataPath, f)]
+					l, fr, n, ok := primaryFileStats(data)
+					fmt.Printf("round %d file %d: len=%d live=%d free=%d liveRecs=%d ok=%v\n", rounds, f, len(data), l, fr, n, ok)
+				}
+			}
 		}
 		if left := released(); len(left) > 0 {
 			d.fail("gcprog/primary-not-released", "after %d rounds of (primary GC threshold %d, Flush) primary files %v still hold bytes although every record in them was superseded (mode %d, %d records moved, current file %d)", rounds, thr, left, mode, moved, curFile)
@@ -299,7 +317,11 @@ func runGCProg(p *Plan, tape *simrt.Tape, opt RunOpt) *RunOut {
 		d.Probes["gc-rounds"] += rounds
 		// clean sub-case: the oldest file was among the emptied ones -> unlinked
 		// and the header's first file advanced
-		if target[uint64(oldFirst)] {
+		stillLive := false
+		if data, ok := fsOf().Files()[fmt.Sprintf("%s.%d", dataPath, oldFirst)]; ok && len(data) > 0 && mode == 1 {
+			stillLive = true // a former low-use file that is all live now (see released())
+		}
+		if target[uint64(oldFirst)] && !stillLive {
 			if _, ok := fsOf().Files()[fmt.Sprintf("%s.%d", dataPath, oldFirst)]; ok {
 				d.fail("gcprog/oldest-not-unlinked", "the oldest primary file %d was emptied but still exists after %d rounds", oldFirst, rounds)
 				return
